@@ -500,5 +500,32 @@ fn generate(full: bool) -> String {
             g.case("derive-generic-member", &inst, &e, 4, &prelude);
         }
     }
+    // (iv-d) derived structs whose field TYPES are not plain paths: a tuple-typed field, a parenthesised type, a
+    // type that reaches the derive through a `macro_rules!` `$t:ty` fragment (a none-delimited group), an array-free
+    // reference-free zoo of what the type grammar allows for a SystemData member
+    for k in &member_kinds {
+        for form in 0..4 {
+            let name = format!("S{}", sid);
+            sid += 1;
+            let mut e = Exp::default();
+            let mut own = String::new();
+            ty(&T::Leaf(K::Write, 0), &mut own, &mut e);
+            let mut member = String::new();
+            ty(&T::Leaf(*k, 1), &mut member, &mut e);
+            let mut third = String::new();
+            ty(&T::Leaf(K::Read, 2), &mut third, &mut e);
+            let prelude = match form {
+                // tuple-typed field (named struct)
+                0 => format!("#[derive(SystemData)]\n#[allow(dead_code)]\npub struct {n}<'a> {{\n    pub own: {own},\n    pub pair: ({member}, {third}),\n}}\n", n = name, own = own, member = member, third = third),
+                // tuple-typed field (tuple struct), the tuple first
+                1 => format!("#[derive(SystemData)]\n#[allow(dead_code)]\npub struct {n}<'a>(pub ({member}, {third}), pub {own});\n", n = name, own = own, member = member, third = third),
+                // parenthesised types
+                2 => format!("#[derive(SystemData)]\n#[allow(dead_code, unused_parens)]\npub struct {n}<'a> {{\n    pub own: ({own}),\n    pub m: ({member}),\n    pub t: {third},\n}}\n", n = name, own = own, member = member, third = third),
+                // every field type passed through a `$t:ty` fragment
+                _ => format!("macro_rules! mk_{n} {{\n    ($name:ident, $lt:lifetime, $t0:ty, $t1:ty, $t2:ty) => {{\n        #[derive(SystemData)]\n        #[allow(dead_code)]\n        pub struct $name<$lt> {{\n            pub own: $t0,\n            pub m: $t1,\n            pub t: $t2,\n            pub lt: PhantomData<&$lt ()>,\n        }}\n    }};\n}}\nmk_{n}!({n}, 'a, {own}, {member}, {third});\n", n = name, own = own, member = member, third = third),
+            };
+            g.case("derive-field-type-shapes", &format!("{}<'a>", name), &e, 3, &prelude);
+        }
+    }
     format!("{}\npub static CASES: &[Case] = &[\n{}];\n", g.code, g.table)
 }
